@@ -1906,13 +1906,7 @@ class MPO(MPSGeometry):
             num_sites = self.L
         elif not self.finite and not other.finite:
             if num_sites is None:
-                self_max_range = self.max_range
-                if self_max_range is None or self_max_range == np.inf:
-                    self_max_range = self.L
-                other_max_range = other.max_range
-                if other_max_range is None or other_max_range == np.inf:
-                    other_max_range = other.L
-                num_sites = max(self.L + 2 * self_max_range, other.L + 2 * other.max_range)
+                num_sites = self._default_num_sites(other)
             assert num_sites >= self.L
             if not understood_infinite:
                 msg = (
@@ -1978,8 +1972,20 @@ class MPO(MPSGeometry):
         res = res.itranspose(['wR*', 'wR'])[IdR_idcs]
         return res
 
+    def _default_num_sites(self, other):
+        """Default `num_sites` of :meth:`overlap` for infinite MPOs."""
+        res = 0
+        for mpo in (self, other):
+            max_range = mpo.max_range
+            if max_range is None or max_range == np.inf:
+                max_range = mpo.L
+            res = max(res, mpo.L + 2 * max_range)
+        return res
+
     def distance(self, other, understood_infinite: bool = False, num_sites: int = None):
         """The Frobenius distance induced by the inner product :meth:`overlap`."""
+        if num_sites is None and not self.finite and not other.finite:
+            num_sites = self._default_num_sites(other)  # the same window for all three overlaps
         ov = self.overlap(other, understood_infinite=understood_infinite, num_sites=num_sites)
         s_norm = self.overlap(self, understood_infinite=understood_infinite, num_sites=num_sites)
         o_norm = other.overlap(other, understood_infinite=understood_infinite, num_sites=num_sites)
